@@ -30,6 +30,9 @@ CHECKS["C13"] = dict(engine="symx", technique="symbolic execution (symx/z3) of t
 CHECKS["C04"] = dict(engine="symx", technique="symbolic execution (symx/z3) of endpoint methods emitted by the real generator, called with symbolic arguments against a recording transport; plus two string lemmas over all names decided on the real sanitiser / URL builder",
    text="For 11 operation shapes (path/query/header/cookie parameters incl. path-level ones and names needing sanitisation, JSON model / JSON array / form / multipart / octet-stream bodies, two request content types; GET/POST/PUT/PATCH/DELETE) every argument is symbolic (strings of length 1 quick / <=2 thorough over 'a/ %&=é{', ints, bools, list and model leaves) and the None-ness of every optional argument is solver-decided: exactly one request, method, URL with the path values substituted, every supplied query/header/cookie argument under its original name with the caller's value, None ones absent, body keyword and content equal to an independent reference. Lemmas for all strings up to 3/5 (sanitize_method_name idempotent) and all well-formed path templates up to 4/6 characters (URL variables == declared path arguments).",
    note="Trusts z3, the symx instrumentation (each path witness re-run on the uninstrumented generated package), the OPS table in props/c04.py as the independent statement of each operation, and that the 11 templates represent the request shapes. httpx's own URL/query encoding and Content-Type selection lie below the recording transport: outside the claim.", ref="§2 C04")
+CHECKS["C16"] = dict(engine="crosshair", technique="CrossHair (symbolic execution of Python with z3) on PEP-316 conditions over the real structure_from_dict / unstructure_to_dict / DataclassSerializer: leaf values, presence flags, list lengths and graph edges symbolic; one process per condition, reachability twins, native replay of counterexamples",
+   text="For a stated family of 7 dataclass types (plain, keyword-like and case-colliding wire keys, datetime/date/bytes/bool leaves, nesting to depth 3 through dataclass, list, dict, optional, list of lists, and a recursive Node) CrossHair decides 15 conditions per warm-up history of the global converter (2 quick / 3 thorough): decode-encode and encode-decode identities, ValueError naming the offending field, and DataclassSerializer terminating with JSON data without null-valued keys on every edge assignment of 3-node (next-only / children-only) and 2-node (mixed) object graphs.",
+   note="'Confirmed over all paths' within the per-condition timeout is CrossHair's verdict; a counterexample is replayed natively before it is reported; everything else is inconclusive. cattrs' eval is rebound to an untraced eval and the converter's per-call code generation is memoised per class (stated stubs). Types outside the family are outside the claim.", ref="§2 C16")
 NA = {
  "C01": "not applicable to solver-based checking: the observation is compile()/import of a whole emitted file tree for a whole symbolic document; no kernel small enough to encode (identifier and lexical kernels are decided under C20/C15)",
  "C09": "not applicable: quantifies over hash seeds, processes, clocks and existing file trees; the deciding observation is byte equality of directory trees - nothing for a solver to decide",
